@@ -357,6 +357,16 @@ def session_envelope(ctx):
                  {'max_size': 64, 'batch_option': enums.BatchErrorContinuationOption.CONTINUE}, None),
                 ('unencodable-multi', [create(), create()], {}, ('unencodable',)),
             ]
+            # client text that is echoed in a result message: every Unicode category that is awkward to print
+            for k, text in enumerate(['tab\there', 'line\nbreak', u'nel\u0085x', u'nbsp\u00a0x', u'zwsp\u200bx', u'ls\u2028x', u'ps\u2029x',
+                                      u'bom\ufeffx', u'rtl\u202ex', u'acc\u0301ent', u'\u00e9\u00e8', u'\u0416\u0434', u'\U0001f511key',
+                                      u'\u212b', u'\u1100\u1161', u'nul\x00x', u'del\x7fx', u'pua\ue000x']):
+                scen.append(('echo-text-%d' % k, [kdrv.get(text)], {}, None))
+            # a Maximum Response Size at every 8-byte step around the sizes of the replacement answer itself
+            for lim in list(range(0, 320, 8)) + [1, 100, 127, 207, 209, 2 ** 31 - 1]:
+                scen.append(('limit-%d' % lim, [kdrv.query()], {'max_size': lim}, None))
+            for lim in (-1, -2 ** 31):
+                scen.append(('limit-negative-%d' % -lim, [kdrv.query()], {'max_size': lim}, None))
             rng.shuffle(scen)
             scen = setup + scen + [('create-again', [create()], {}, None)]
             stream = b''
